@@ -184,7 +184,7 @@ def k1_task(task, tr):
             return k1_replay(kernel, topology, n, S, K, N, vals, st if tip_states else None)
 
         cm.discharge(tr, d, [], goals, label, replay=replay, timeout=60.0, varnodes=V,
-                     sig_prefix=f'{kernel}:')
+                     sig_prefix=f'{kernel}:', defined=False)
         tr.regions += 1
 
 
@@ -470,7 +470,7 @@ def k2_task(task, tr):
             return k2_replay(topology, n, tree_kind, site_kind, tip_states, vals)
 
         cm.discharge(tr, d, hyps, goals, label, replay=replay, timeout=60.0, varnodes=V,
-                     sig_prefix='TreeLikelihoodModel._call:')
+                     sig_prefix='TreeLikelihoodModel._call:', defined=False)
         tr.regions += 1
 
 
@@ -592,6 +592,8 @@ def body(chk):
     chk.total.assumptions |= {
         'K2: transition matrices are an uninterpreted function of (branch length x clock rate x site rate) '
         'constrained only to be row-stochastic; that p_t = exp(Qt) is C04, that site rates are normalised is C05',
+        'site likelihoods are assumed positive (the argument of each log): the identities proved are between the '
+        'site likelihoods themselves, positivity of the inputs is not needed for them',
         'datatype tables / pattern compression run concretely on one alignment per n (symbolic-character checks: see notes)',
     }
     pmap(run_task, tasks_for(chk.tier), chk.total)
